@@ -853,6 +853,34 @@ class Program:
         mod, _, attr = tab[name].partition(':')
         return mod + '.' + attr
 
+    def _fold_option_value(self, m, v):
+        """An option attribute as a literal: a named constant, or
+        list(...) / tuple(...) / [*...] of one (a fresh copy of it)."""
+        if isinstance(v, (ast.Name, ast.Attribute)):
+            c = self.const_expr(m, v)
+            return c if c is not None else v
+        if isinstance(v, ast.Call) and isinstance(v.func, ast.Name) and \
+                v.func.id in ('list', 'tuple') and len(v.args) == 1 and \
+                not v.keywords:
+            inner = self._fold_option_value(m, v.args[0])
+            if isinstance(inner, (ast.Tuple, ast.List)):
+                cls = ast.List if v.func.id == 'list' else ast.Tuple
+                return cls(elts=list(inner.elts), ctx=ast.Load())
+            return v
+        if isinstance(v, (ast.List, ast.Tuple)) and any(
+                isinstance(x, ast.Starred) for x in v.elts):
+            elts = []
+            for x in v.elts:
+                if isinstance(x, ast.Starred):
+                    inner = self._fold_option_value(m, x.value)
+                    if not isinstance(inner, (ast.Tuple, ast.List)):
+                        return v
+                    elts.extend(inner.elts)
+                else:
+                    elts.append(x)
+            return type(v)(elts=elts, ctx=ast.Load())
+        return v
+
     def options(self):
         """opts._options table: name -> dict(type, default(ast), choices)."""
         m = self.module(PKG + '.opts')
@@ -867,17 +895,14 @@ class Program:
             if not isinstance(e, ast.Call):
                 continue
             ty = self.resolve(m, e.func)
-            if not e.args or not isinstance(e.args[0], ast.Constant):
+            kw = {k.arg: k.value for k in e.keywords if k.arg}
+            nm = e.args[0] if e.args else kw.get('name')
+            nm = self._fold_option_value(m, nm) if nm is not None else None
+            if not isinstance(nm, ast.Constant):
                 continue
-            name = e.args[0].value
-            kw = {k.arg: k.value for k in e.keywords}
+            name = nm.value
             for k_, v_ in list(kw.items()):
-                c_ = self.const_expr(m, v_) if isinstance(
-                    v_, (ast.Name, ast.Attribute)) else None
-                if c_ is not None:
-                    kw[k_] = c_
-            if len(e.args) > 1 and 'default' not in kw:
-                pass
+                kw[k_] = self._fold_option_value(m, v_)
             out[name] = {'type': ty, 'default': kw.get('default'),
                          'choices': kw.get('choices'), 'node': e}
         return out
